@@ -383,7 +383,7 @@ def plan(tier, seed):
     n = 8
     shards += [{"kind": "unsupported", "items": items[i::n]} for i in range(n)]
     if tier == "thorough":
-        shards += [{"kind": "crash_generated", "shard": i, "seed": seed, "examples": 6} for i in range(16)]
+        shards += [{"kind": "crash_generated", "shard": i, "seed": seed, "examples": 30} for i in range(32)]
     return shards
 
 
